@@ -58,7 +58,7 @@ fn main() {
                     println!("{}", r.render());
                     // verdict: does the violating (last) call still behave as recorded?
                     let v = Violation { prop: String::new(), kind: String::new(), msg: String::new(), replay: j.clone() };
-                    if j.get("expect_last").is_some() {
+                    if j.get("expect_last").is_some() && j.get("expect_replay_output").is_none() {
                         match validate_replay(&v) {
                             Ok(()) => {
                                 println!("reproduced: true (the last call behaves as recorded when the violation was reported)");
@@ -68,7 +68,7 @@ fn main() {
                         }
                     } else if let Some(exp) = j.get("expect_replay_output") {
                         if exp.render() == r.render() {
-                            println!("reproduced: true (the replay shows the same behaviour as when the violation was reported)");
+                            println!("reproduced: true (every call of the replay behaves as it did when the violation was reported)");
                             std::process::exit(1);
                         } else {
                             println!("reproduced: false (the behaviour recorded with the violation was {})", exp.render().replace('\n', " "));
@@ -218,7 +218,7 @@ fn cmd_check(args: &[String]) {
         rj.put("signature", J::s(&sig));
         // replays without a per-call expectation carry what the replay shows now (on the tree
         // that violates), so that `--replay` can later say whether the behaviour is still there
-        if v.replay.get("expect_last").is_none() && v.replay.get("engine").is_some() {
+        if v.replay.get("engine").is_some() {
             if let Ok(r) = run_replay(&v.replay) {
                 rj.put("expect_replay_output", r);
             }
